@@ -326,6 +326,11 @@ def run_doc(acc, steps, doc, labels, version, root, tmpdir, case):
     try:
         with open(p, "w") as f:
             json.dump(doc, f)
+        # the oracle judges the document as the file spells it: a JSON parser hands over ONE
+        # object for every NaN token, so two NaNs that were different objects in the
+        # generator's dict name the same element once they have been through the file
+        with open(p) as f:
+            doc = json.load(f)
     except (TypeError, ValueError):
         return
 
